@@ -24,8 +24,9 @@ def main() -> int:
 
     ch = Chooser(rec["choices"])
     try:
-        with _deadline(EXEC_DEADLINE_S):
-            res = harness.execute(rec["program"], ch)
+        prog = rec["program"]
+        with _deadline(prog.get("deadline_s", EXEC_DEADLINE_S) if isinstance(prog, dict) else EXEC_DEADLINE_S):
+            res = harness.execute(prog, ch)
     except Exception as exc:  # noqa: BLE001
         from hv.core import library_exception_result
 
